@@ -15,9 +15,10 @@ struct Recorder {
     events: Mutex<Vec<(String, &'static str, i64, i64)>>,
     rng: Mutex<Rng>,
     /// delay profile: 0 none, 1 yield, 2 random spin/sleep, 3 slow collector, 4 slow drop_tx,
-    /// 5 slow workers, 6 slow sends, 7 fast everything but one random point class
+    /// 5 slow workers, 6 slow sends, 7 fast everything but one random point class, 8 one straggling worker
     profile: u64,
     slow_point: &'static str,
+    straggled: std::sync::atomic::AtomicBool,
 }
 
 const POINTS: [&str; 10] = [
@@ -48,6 +49,10 @@ impl Hook for Recorder {
             4 if name == "drop_tx" => std::thread::sleep(us(5000)),
             5 if name == "w_start" => std::thread::sleep(us(3000)),
             6 if name == "w_send" => std::thread::sleep(us(1500)),
+            // one straggling worker: far longer than any time-out a collector might use
+            8 if name == "w_send" && !self.straggled.swap(true, std::sync::atomic::Ordering::SeqCst) => {
+                std::thread::sleep(Duration::from_millis(900))
+            }
             7 if name == self.slow_point => std::thread::sleep(us(4000)),
             _ => {
                 if r % 8 == 0 {
@@ -96,7 +101,7 @@ pub fn gen(args: &Args) {
         let start = date_of_dn(r.range(dn_of(ymd(1600, 1, 1)), dn_of(ymd(2380, 1, 1))));
         let end = start + chrono::Duration::days(days - 1);
         let lon = r.range(-1_800_000, 1_800_000);
-        let site = Site { lat: r.range(-480_000, 480_000), lon, el: 0, gmt: natural_gmt(lon) };
+        let site = Site { dlat: 0, lat: r.range(-480_000, 480_000), lon, el: 0, gmt: natural_gmt(lon) };
         let mut p = P::of_method(r.range(1, 8) as usize);
         if r.chance(1, 3) {
             p.pol = r.range(0, 14) as usize;
@@ -111,8 +116,10 @@ pub fn gen(args: &Args) {
         let rec = Arc::new(Recorder {
             events: Mutex::new(Vec::new()),
             rng: Mutex::new(Rng::new(seed.wrapping_mul(1000003).wrapping_add(run as u64))),
-            profile: r.next() % 8,
+            // profile 8 (a straggler sleeping 0.9 s) in a few runs only: it costs wall time
+            profile: if run % 20 == 7 { 8 } else { r.next() % 8 },
             slow_point: POINTS[(r.next() % POINTS.len() as u64) as usize],
+            straggled: std::sync::atomic::AtomicBool::new(false),
         });
         verif_hooks::set_parallelism(workers);
         verif_hooks::set_hook(Some(rec.clone()));
@@ -233,7 +240,7 @@ pub fn replay(args: &Args) {
     for (run, (days, workers, thr, sched)) in scheds.into_iter().enumerate() {
         let start = date_of_dn(r.range(dn_of(ymd(1700, 1, 1)), dn_of(ymd(2300, 1, 1))));
         let end = start + chrono::Duration::days(days - 1);
-        let site = Site { lat: r.range(-400_000, 400_000), lon: 0, el: 0, gmt: 0 };
+        let site = Site { dlat: 0, lat: r.range(-400_000, 400_000), lon: 0, el: 0, gmt: 0 };
         let p = P::of_method(r.range(1, 6) as usize);
         let params = p.params();
         let loc = site.location();
